@@ -43,25 +43,30 @@ _CT = ["HEAP", "VECTOR", "LIST", "SET", "NAIVE_VECTOR", "SMALL_VECTOR", "UNORDER
 SPEC = {
     "property": "C09",
     "rule": "random histories of 5-60 operations on a base Matrix<Options> (1-16 rows, <= 8 columns, deliberately non-square; "
-            "p in {2} or {3,5,7,13}; built by one of 3 constructors): insert_column (end / explicit index of a removed column), "
+            "p = 2 or p in {3,5,7,13}; built by one of 3 constructors): insert_column (end / explicit index of a removed column), "
             "remove_last / remove_column, add_to / multiply_target_and_add_to / multiply_source_and_add_to by column index, by a "
-            "vector of entries and by a column obtained with get_column (coefficients 0,1,2,p-1,p,p+1,-1,-p,large,<-p; sources and "
-            "targets preferentially empty one third of the time), zero_entry (present and absent), zero_column, swap_columns, "
-            "swap_rows (any row index < R, including rows >= number of columns and rows never used), erase_empty_row; the same "
+            "vector of entries and by a column obtained with get_column (coefficients 0,1,2,p-1,p,p+1,-1,-p,large,<-p,random; sources "
+            "and targets preferentially empty one third of the time; with compression, sources chosen so that the target becomes "
+            "identical to a column of another class), zero_entry (present and absent entries), zero_column, swap_columns, swap_rows "
+            "(any row index < R, including rows >= number of columns and rows never given to the matrix), erase_empty_row; the same "
             "operation is applied to a dense Z_p model (zp_dense.h).  After every operation get_number_of_columns, is_zero_column and "
-            "is_zero_entry of every cell are compared; get_column(i).get_content (fixed and default length) of every column and "
-            "get_row(r) (as the set of (column, value); (class, value) with compression) of every materialised row are compared after "
-            "every operation when swaps are off and after a random half of them when swaps are on (they trigger the lazy row reorder). "
-            "With column compression an operation on a column is applied to its whole class in the model. "
-            "non-trivial = distinct history with >= 3 additive operations, >= 3 operation kinds, >= 4 non-zero entries at some point and "
-            "at least one corner operand (empty target, coefficient = 0 mod p, zero_entry of an absent entry)",
+            "is_zero_entry of every cell are compared (these do not trigger the lazy row reordering); get_column(i).get_content "
+            "(fixed and default length) of every column and get_row(r) (as the set of (column, value); (class, value) with "
+            "compression) of every materialised row are compared after every operation when swaps are off and after a random half "
+            "of them when swaps are on (they trigger the reordering).  With column compression an operation on a column is applied "
+            "to its whole class in the model (both readings of 'class of a zero column' are accepted). "
+            "non-trivial = distinct history with >= 3 additive operations, >= 3 operation kinds, >= 4 non-zero entries at some point "
+            "and at least one corner operand (empty target, coefficient = 0 mod p, zero_entry of an absent entry, creation of an "
+            "entry at a cell that was zeroed while absent)",
     "assumptions": [
         "source != target for additions by index (and different classes with compression): self-addition is not exercised",
         "a vector of entries is only used as a source when no lazy row swap is pending (its row indices are public ones)",
         "no insertion beyond the end (no holes other than those left by remove_column); operations never address a removed index",
-        "get_row(r) is only called for rows that certainly exist in the row container (derived from the model)",
-        "erase_empty_row only on empty rows whose index was given to the matrix in an inserted column",
-        "inserted / range values are non-zero mod p; p is prime",
+        "get_row(r) is only called for rows that certainly exist in the row container (lower bound derived from the model)",
+        "erase_empty_row only on empty rows whose index was given to the matrix in an inserted column (and not erased since)",
+        "inserted / range values are non-zero mod p; p is prime; ranges are sorted by increasing row index",
+        "iteration over a column (begin/end) and Column::size() are not compared (lazy representations are allowed to differ)",
+        "a SIGABRT handler prints a sanitizer stack so that libstdc++ assertion failures are attributed to a library frame",
         "the dense model harness/c09_base_matrix/zp_dense.h is the trusted oracle",
     ],
     "units": _units_spec,
